@@ -807,7 +807,7 @@ def reordering_spares_skipped_items(ctx, rid):
         n += 1
         import c11
         ok = c11.pin_guard(p, list(path.decisions))[0] is False or any(
-            v is False and "utils::contains_skip(arg1.attrs" in k and "BitAnd" not in k and "!" not in k for k, v in path.decisions)
+            v is False and "utils::contains_skip(" in k and "arg1" in k and "BitAnd" not in k and "!" not in k for k, v in path.decisions)
         r.instance(rid, "ReorderableItemKind::from ↦ %s" % kind, "ok" if ok else "violation", "%s:%d" % (f.file, f.line),
                    "contains_skip(item.attrs) = false on the path" if ok else
                    "decided by %s" % [k[-50:] for k, v in path.decisions][:3])
